@@ -564,11 +564,13 @@ def _invariant(x, kind, what):
 
 
 def _snapshot(objs):
-    return [(copy.deepcopy(o.qd), [q.copy() for q in o.qD], [a.copy() for a in o.A]) for o in objs]
+    return [(copy.deepcopy(o.qd), [q.copy() for q in o.qD], [a.copy() for a in o.A], frozenset(vars(o))) for o in objs]
 
 
 def _same(objs, snap):
-    for o, (qd, qD, A) in zip(objs, snap):
+    for o, (qd, qD, A, attrs) in zip(objs, snap):
+        if frozenset(vars(o)) != attrs:
+            return False          # the object gained or lost an attribute (e.g. a cache stored on the caller's Hamiltonian)
         if not np.array_equal(o.qd, qd) or len(o.qD) != len(qD) or any(not np.array_equal(a, b) for a, b in zip(o.qD, qD)):
             return False
         if len(o.A) != len(A) or any(a.shape != b.shape or a.dtype != b.dtype or not np.array_equal(a, b) for a, b in zip(o.A, A)):
@@ -719,16 +721,21 @@ def check_arith(inp):
 
 # ------------------------------------------------------------------------------------------- C04
 
-def random_operation_input(rng, L, d=2, Dmax=3):
+def random_operation_input(rng, L, d=2, Dmax=3, zero_q=False):
     import pytenet as ptn
-    qd = rng.integers(-1, 2, size=d)
+    if zero_q:
+        # all charges zero: dense tensors, so that inner products and expectation values do not vanish by symmetry
+        pass
+    qd = rng.integers(-1, 2, size=d) if not zero_q else np.zeros(d, dtype=int)
     def prof():
         return [1] + [int(rng.integers(1, Dmax + 1)) for _ in range(L - 1)] + [1]
     out = dict(L=L)
-    ql = [0]; qr = [int(rng.integers(-1, 2))]
+    ql = [0]; qr = [int(rng.integers(-1, 2)) if not zero_q else 0]
     for name, kind in (('psi', 'mps'), ('chi', 'mps'), ('H', 'mpo'), ('rho', 'mpo')):
         D = prof()
-        if kind == 'mps':
+        if zero_q:
+            qD = [np.zeros(n, dtype=int) for n in D]
+        elif kind == 'mps':
             qD = [np.array(ql)] + [rng.integers(-1, 2, size=D[i]) for i in range(1, L)] + [np.array(qr)]
         else:
             qD = [np.array([0])] + [rng.integers(-1, 2, size=D[i]) for i in range(1, L)] + [np.array([0])]
